@@ -706,6 +706,17 @@ func genC02(g *Gen, tier string, emit func(op string, args ...string)) {
 		}
 		emit("datagram", hx(b), hx(g.RandBytes(g.Pick(0, 1, 8))), hx(g.Bytes(g.Pick(0, 16, 19, 20, 40))))
 	}
+	// every value of the Code octet on a well-formed datagram (the decode surface prints and switches on it)
+	for c := 0; c < 256; c++ {
+		b := make([]byte, 20, 32)
+		b[0], b[1] = byte(c), byte(g.U64())
+		copy(b[4:], g.RandBytes(16))
+		if c%2 == 1 {
+			b = append(b, 1, 5, 'b', 'o', 'b')
+		}
+		b[2], b[3] = byte(len(b)>>8), byte(len(b))
+		emit("datagram", hx(b), hx(g.RandBytes(g.Pick(1, 8))), hx(g.Bytes(g.Pick(0, 20))))
+	}
 	// de-obfuscation with an exactly chosen decrypted length octet (needs the key stream, so it is crafted here)
 	for k := 1; k <= 15; k++ {
 		for _, want := range []int{16*k - 1, 16 * k, 16*k + 1, 255} {
